@@ -27,6 +27,8 @@ impl PivotReversalStrategy {
 		// documented seeds: pivot-high detector on highs, pivot-low detector on lows, both (left, right); the candle `right` steps back is kept
 		r is Ok ==> r->Ok_0.ph.left == self.left && r->Ok_0.ph.right == self.right && r->Ok_0.pl.left == self.left && r->Ok_0.pl.right == self.right
 			&& r->Ok_0.window.view().len() == self.right && r->Ok_0.hprice@ == 0real && r->Ok_0.lprice@ == 0real,
+		// C08: the constant state for this candle's high and low (pivot_const_step)
+		r is Ok ==> r->Ok_0.const_state(candle.high_s(), candle.low_s()),
 //@replace Ok(Self::Instance { ==> Ok(PivotReversalStrategyInstance {
 //@replace UpperReversalSignal::new(cfg.left, cfg.right, &candle.high())? ==> UpperReversalSignal::new3(cfg.left, cfg.right, &candle.high())?
 //@replace LowerReversalSignal::new(cfg.left, cfg.right, &candle.low())? ==> LowerReversalSignal::new3(cfg.left, cfg.right, &candle.low())?
@@ -62,6 +64,23 @@ impl PivotReversalStrategyInstance {
 //@hint result
 	proof { assert(pivot_step(old(self), candle, self, r.sigs()[0], swh, swl)); }
 //@end
+}
+
+// ---- C08 at indicator level: fed the candle it was initialised with, neither pivot detector fires, the remembered pivot prices stay put and
+// the signal is the same on every step (which signal it is depends only on the candle and the remembered prices; see the C06 known finding)
+impl PivotReversalStrategyInstance {
+	pub open spec fn const_state(&self, h: ValueType, l: ValueType) -> bool {
+		&&& self.inv() && all_eq_r(self.ph.window.view(), h@) && self.ph.seeded_with(&h) && all_eq_r(self.pl.window.view(), l@) && self.pl.seeded_with(&l)
+	}
+}
+pub proof fn pivot_const_step<T: OHLCV>(pre: &PivotReversalStrategyInstance, candle: &T, post: &PivotReversalStrategyInstance, sig: Action, swh: Action, swl: Action)
+	requires pre.const_state(candle.high_s(), candle.low_s()), post.inv(), pivot_step(pre, candle, post, sig, swh, swl)
+	ensures swh is None, swl is None, post.hprice == pre.hprice, post.lprice == pre.lprice,
+		sig == Action::of_i8((if candle.low_s()@ >= pre.lprice@ { 1int } else { 0int }) - (if candle.high_s()@ <= pre.hprice@ { 1int } else { 0int })),
+		post.const_state(candle.high_s(), candle.low_s())
+{
+	upper_reversal_const_step(&pre.ph, candle.high_s(), &post.ph, swh);
+	lower_reversal_const_step(&pre.pl, candle.low_s(), &post.pl, swl);
 }
 } // verus!
 fn main() {}
